@@ -11,6 +11,7 @@ mod evalu;
 mod conc;
 mod replayt;
 mod nvm;
+mod entries;
 
 use std::io::{BufRead, Write};
 
@@ -111,7 +112,7 @@ fn main() {
             let mut n = 0;
             for line in f.lines() {
                 let line = line.unwrap();
-                if let Some(a) = un.exec_line(&line).or_else(|| evalu::exec_line(&mut un, &line)).or_else(|| {
+                if let Some(a) = un.exec_line(&line).or_else(|| entries::exec_line(&mut un, &line)).or_else(|| evalu::exec_line(&mut un, &line)).or_else(|| {
                     replayt::exec_line(&mut un, &line, &arg_s(&args, "--bin", &format!("{}/harness/target-replay/debug/replay", verif_root())), &arg_s(&args, "--work", &format!("{}/.work", verif_root())))
                 }) {
                     eng.line += 1;
@@ -258,6 +259,7 @@ fn main() {
                 "sbest" => u.sbest(&mut rng, n),
                 "req" => evalu::req(&mut u, &mut rng, n),
                 "meta" => u.meta(&mut rng, n),
+                "ent" => entries::generate(&mut u, &mut rng, n),
                 "nvm" => nvm::generate(&mut u, &mut rng, n),
                 "replay" => {
                     let bin = arg_s(&args, "--bin", &format!("{}/harness/target-replay/debug/replay", verif_root()));
